@@ -93,6 +93,7 @@ type l4Case struct {
 	Dests      string   `json:"dests"`    // valid | invalid | none | outcome+valid | niloutcome+valid | outcome | outcome+invalid
 	Calls      []string `json:"calls"`    // iter: next get getoutcome getniloutcome getinvalid close
 	CancelAt   int      `json:"cancelAt"` // iter: cancel the context before this call index (-1 never)
+	TxOpts     int      `json:"txOpts"`   // Begin with nil options, empty options, ReadOnly
 	ErrWrap    int      `json:"errWrap"`  // which sentinel the injected driver errors wrap (0 none)
 	// PreCtx: a preliminary Run() of the same Statement on the same DB/TX before the
 	// operation proper: "" none, "live", "cancelled" (its context is already cancelled)
@@ -343,6 +344,7 @@ func genL4(r *rng.R) *l4Case {
 	if r.Chance(1, 2) {
 		c.ErrWrap = 1 + r.Intn(5)
 	}
+	c.TxOpts = r.Intn(3)
 	return c
 }
 
@@ -538,7 +540,7 @@ func runL4Case(c *l4Case) (obs *l4Obs) {
 		bctx, bcancel := context.WithCancel(context.WithValue(context.Background(), fakedrv.CtxKey{}, "BEGIN"))
 		defer bcancel()
 		cancelBegin = bcancel
-		tx, err = db.Begin(bctx, nil)
+		tx, err = db.Begin(bctx, []*sqlair.TXOptions{nil, {}, {ReadOnly: true}}[c.TxOpts%3])
 		if err != nil {
 			obs.Panic = "begin failed: " + err.Error()
 			return obs
